@@ -26,6 +26,13 @@ def _jobs(n_seeds, base=0):
             a = common.job_args(spec, opts, cell)
             a["fault"] = {"kind": "kill", "index": 20 + rng.randrange(200), "phase": rng.choice(["before", "after"])}
             jobs.append((cell["hashseed"], "scenarios:crash_resume", a))
+        if i % 3 == 0:
+            from simkit.checks import c20
+            wls, steps, sched, fam = c20.gen_session(rng, True)
+            jobs.append((0, "scenarios:cache_session", {"workloads": wls, "steps": steps, "sched": sched}))
+        if i % 4 == 0:
+            mname = ["c08", "c15", "c18", "c12"][(i // 4) % 4]
+            jobs.append((i % 3, "machines.%s:run" % mname, {"seed": 1000 + i, "max_examples": 25}))
     return jobs
 
 
@@ -42,8 +49,15 @@ def _run(jobs, lanes):
                 out[k] = {"err": r.get("err")}
             else:
                 rr = r["res"]
-                out[k] = {"trace": rr.get("trace_sha"), "digests": rr.get("digests"), "exit": rr.get("exit"),
-                          "inputs": rr.get("inputs_sha"), "events": rr.get("events"), "crash": rr.get("crash")}
+                if "examples" in rr:      # machine job
+                    out[k] = {"examples": rr.get("examples"), "distinct": rr.get("distinct"), "fail": bool(rr.get("fail")),
+                              "known": sorted((rr.get("known") or {}).keys())}
+                elif "steps" in rr and isinstance(rr.get("steps"), list):     # cache session
+                    out[k] = {"trace": rr.get("trace_sha"), "events": rr.get("events"),
+                              "actors": [[(a.get("exit"), a.get("digests")) for a in st.get("actors", [])] for st in rr["steps"]]}
+                else:
+                    out[k] = {"trace": rr.get("trace_sha"), "digests": rr.get("digests"), "exit": rr.get("exit"),
+                              "inputs": rr.get("inputs_sha"), "events": rr.get("events"), "crash": rr.get("crash")}
     return out
 
 
@@ -66,6 +80,8 @@ def determinism(n_seeds=20, quiet=False, base=0):
     if c is None:
         print("fresh-interpreter run failed:", p.stderr[-2000:])
         return 1
+    a = {int(k): v for k, v in json.loads(json.dumps(a)).items()}
+    b = {int(k): v for k, v in json.loads(json.dumps(b)).items()}
     for k in range(len(jobs)):
         if not (a.get(k) == b.get(k) == c.get(k)) or "err" in (a.get(k) or {"err": 1}):
             bad += 1
